@@ -314,6 +314,9 @@ class BinningConfig(BaseConfig, Immutable):
             This cosmology object is not stored with this instance, but should
             be managed by the top level :obj:`~yaw.Configuration` class.
         """
+        if edges is None:
+            edges = NotSet  # same meaning as in create()
+
         generator_args = (zmin, zmax, num_bins, method)
         if (
             edges is NotSet
